@@ -24,8 +24,13 @@ def decoder_roles(rep, rule, c, subject_text):
     the registry by the window's map, its pattern and ratio, the Switch on the address."""
     site = c.fi.site
     r = DecoderRoles()
-    loops = [L for L in c.t.loops.values() if L.kind == 'gen' and
-             c.norm(L.iter) == c.parse("self.bus.memory_map.window_patterns()")]
+    def unlist(e):
+        # for x in list(E) / tuple(E) walks E
+        while e[0] == 'call' and e[1] in (('name', 'list'), ('name', 'tuple')) and len(e[2]) == 1 and not e[3]:
+            e = e[2][0]
+        return e
+    WP = c.parse("self.bus.memory_map.window_patterns()")
+    loops = [L for L in c.t.loops.values() if L.kind == 'gen' and unlist(c.norm(L.iter)) == WP]
     if len(loops) != 1:
         # named wrong shape: subordinates paired with windows by *position* (insertion order vs address order)
         for L in c.t.loops.values():
@@ -63,7 +68,29 @@ def decoder_roles(rep, rule, c, subject_text):
     r.sub = next(iter(subs))
     r.registry = r.sub[1]
     # the Switch
-    sids = [sid for sid, s in c.t.switches.items() if c.norm(s) == c.parse(subject_text)]
+    subj = c.parse(subject_text)
+    sids = [sid for sid, s in c.t.switches.items() if c.norm(s) == subj]
+    r.skip = None
+    if not sids:
+        # Switch on the upper part of the address, addr[K:]: sound iff every window ignores at least its K low bits,
+        # i.e. K <= the address width of every subordinate (K = the smallest of them); K = the largest leaves the bits
+        # between a smaller window's width and K neither compared nor forwarded
+        for sid, s in c.t.switches.items():
+            sn = c.norm(s)
+            if sn[0] == 'sub' and sn[1] == subj and sn[2][0] == 'slice' and sn[2][2] in (('const', None), c.norm(('call', ('name', 'len'), (subj,), ()))) \
+                    and sn[2][3] == ('const', 1) and sn[2][1] not in (('const', 0), ('const', None)):
+                K = sn[2][1]
+                agg = K[1] if K[0] == 'call' and K[1] in (('name', 'max'), ('name', 'min')) else None
+                over_windows = agg is not None and len(K[2]) == 1 and K[2][0][0] == 'gen' and len(K[2][0][3]) == 1 and \
+                    unlist(c.norm(K[2][0][3][0][1])) == WP and K[2][0][2][0] == 'attr' and K[2][0][2][2] == 'addr_width'
+                if over_windows and agg == ('name', 'max'):
+                    rep.bad(rule, site, f"Switch({subject_text}[K:])",
+                            "the comparators skip K = the LARGEST subordinate address width: for a smaller subordinate the address bits between "
+                            "its own width and K are neither compared nor forwarded, so addresses outside its window select it")
+                    return None
+                rep.unk(rule, site, f"Switch({subject_text}[K:])", f"the Switch decodes a slice of the address starting at {ir.show(K)[:80]}; "
+                        "that form is not verified")
+                return None
     if len(sids) != 1:
         rep.unk(rule, site, f"Switch({subject_text})", f"found {len(sids)} Switch statements on the bus address")
         return None
@@ -432,3 +459,121 @@ def chunk_width(rep, rule, idx, c, SH=None):
         a0 = c.norm(a0) if a0 is not None else None
         rep.check(a0 == c.parse("self.bus.data_width"), rule, site, f"{o.name}: chunk width == bus data width",
                   f"created with granularity {ir.show(a0) if a0 else None}; expected self.bus.data_width")
+
+
+def reset_discipline(rep, rule, idx, class_specs, allowed=()):
+    """Every register a property's initial-state clause relies on takes part in the domain reset: no Signal(...) /
+    Signal.like(...) created by the given classes passes reset_less (other than a literal False).  `allowed` lists
+    (class qual, assigned name) pairs that are reset-less on purpose, with the reason given where the rule is called."""
+    import ast as _ast
+    allowed = set(allowed)
+    for spec in class_specs:
+        try:
+            cls = idx.find_class(spec)
+        except Exception:
+            cls = None
+        if cls is None:
+            rep.unk(rule, "-", f"class {spec}", "not found")
+            continue
+        n_sig, bad = 0, []
+        for f in [f_ for k_ in [cls] + [b for b in idx.bases_of(cls)] for fs in k_.methods.values() for f_ in fs]:
+            if True:
+                for st in _ast.walk(f.node):
+                    calls = []
+                    if isinstance(st, _ast.Assign) and isinstance(st.value, _ast.Call):
+                        calls = [(st.value, _ast.unparse(st.targets[0]).split(".")[-1])]
+                    elif isinstance(st, _ast.Call):
+                        calls = [(st, None)]
+                    for call, name in calls:
+                        fn = _ast.unparse(call.func)
+                        if fn not in ("Signal", "Signal.like"):
+                            continue
+                        if name is not None:
+                            n_sig += 1
+                        for k in call.keywords:
+                            if k.arg is None and name is not None:
+                                rep.unk(rule, f.site, f"{name} = {fn}(**...)", "keyword arguments are not literal; reset_less cannot be read off")
+                            if k.arg == "reset_less" and not (isinstance(k.value, _ast.Constant) and k.value.value is False):
+                                key = (cls.qual, name)
+                                if name is not None and key not in allowed:
+                                    bad.append((f.site, name, _ast.unparse(k.value), call.lineno))
+        seen = set()
+        for site, name, val, ln in bad:
+            if (site, name) in seen:
+                continue
+            seen.add((site, name))
+            rep.bad(rule, site, f"register `{name}` takes part in the domain reset",
+                    f"created with reset_less={val}: after a reset of the clock domain it keeps its old value instead of returning to its "
+                    "initial value, so the component does not start from the documented initial state", line=ln)
+        if not bad:
+            rep.ok(rule, cls.site, f"registers of {cls.qual} take part in the domain reset", f"{n_sig} Signal constructor(s), none reset-less"
+                   + (f" beyond the {len([a for a in allowed if a[0] == cls.qual])} deliberate one(s)" if any(a[0] == cls.qual for a in allowed) else ""),
+                   nontrivial=n_sig > 0)
+
+
+def iterable_handover(rep, rule, idx, ctor_spec, param, sink_call, sink_kw):
+    """A constructor parameter documented as an *iterable* reaches `sink_call(..., sink_kw=param)` untouched: it is not
+    traversed before (a one-shot iterable would arrive exhausted) and it is the parameter itself (or a materialised
+    copy bound to the same name) that is handed over."""
+    import ast as _ast
+    fi = idx.find_func(ctor_spec)
+    site = fi.site
+    CONSUMERS = {"tuple", "list", "set", "frozenset", "dict", "sorted", "sum", "any", "all", "max", "min", "enumerate", "zip", "iter",
+                 "next", "map", "filter", "reversed", "len"}
+    sinks = [n for n in _ast.walk(fi.node) if isinstance(n, _ast.Call) and _ast.unparse(n.func).split(".")[-1] == sink_call]
+    if len(sinks) != 1:
+        rep.unk(rule, site, f"{sink_call}({sink_kw}=...)", f"found {len(sinks)} calls of {sink_call}")
+        return
+    sink = sinks[0]
+    arg = next((k.value for k in sink.keywords if k.arg == sink_kw), None)
+    what = f"`{param}` reaches {sink_call}({sink_kw}=...) as given"
+    if arg is None:
+        rep.bad(rule, site, what, f"{sink_call} is called without {sink_kw}: the initial contents are dropped", line=sink.lineno)
+        return
+    if not (isinstance(arg, _ast.Name) and arg.id == param):
+        rep.form(False, rule, site, what, f"{sink_kw}={_ast.unparse(arg)[:60]}")
+        return
+    # uses of the parameter before the hand-over
+    par = {}
+    for n in _ast.walk(fi.node):
+        for ch in _ast.iter_child_nodes(n):
+            par[ch] = n
+    materialised = False
+    for n in _ast.walk(fi.node):
+        if not (isinstance(n, _ast.Name) and n.id == param and isinstance(n.ctx, _ast.Load)) or n is arg:
+            continue
+        if n.lineno > sink.lineno:
+            continue
+        p = par.get(n)
+        # init = tuple(init) / list(init): a materialised copy under the same name -- later traversals are harmless
+        if isinstance(p, _ast.Call) and isinstance(p.func, _ast.Name) and p.func.id in ("tuple", "list") and p.args == [n]:
+            pp = par.get(p)
+            if isinstance(pp, _ast.Assign) and len(pp.targets) == 1 and isinstance(pp.targets[0], _ast.Name) and pp.targets[0].id == param:
+                materialised = True
+                continue
+        if materialised:
+            continue
+        consuming = False
+        q = n
+        while q in par and not isinstance(par[q], _ast.stmt):
+            q = par[q]
+            if isinstance(q, _ast.Call) and isinstance(q.func, _ast.Name) and q.func.id in CONSUMERS and \
+                    not (q.func.id == "len" and n in q.args):
+                consuming = True
+            if isinstance(q, (_ast.GeneratorExp, _ast.ListComp, _ast.SetComp, _ast.DictComp)) and any(g.iter is n for g in q.generators):
+                consuming = True
+            if isinstance(q, _ast.Starred):
+                consuming = True
+        st = par.get(q)
+        if isinstance(st, _ast.For) and st.iter is q:
+            consuming = True
+        if consuming:
+            rep.bad(rule, site, what, f"`{param}` is traversed at line {n.lineno} ({_ast.unparse(par[n])[:50]}) before it is handed to {sink_call}: "
+                    f"`{param}` is documented as an iterable, and a one-shot iterable (a generator) arrives exhausted -- the memory starts all zero",
+                    line=n.lineno)
+            return
+        if isinstance(p, _ast.Compare) or (isinstance(p, _ast.Call) and isinstance(p.func, _ast.Name) and p.func.id in ("isinstance", "len")):
+            continue
+        rep.unk(rule, site, what, f"`{param}` is used at line {n.lineno} ({_ast.unparse(p)[:50]}) before the hand-over; whether that traverses it is not decided")
+        return
+    rep.ok(rule, site, what, f"{sink_call}({sink_kw}={param}) at line {sink.lineno}, no earlier traversal")
